@@ -1,0 +1,10 @@
+//go:build verif
+
+// Contracts for package extension (comment-only; compiled only with -tags verif).
+package extension
+
+//@ func extension.ToExtensionData {C12,C16}
+//@   opaque -- boundary for the transport hooks: the call is logged; only what the clause below states is assumed
+//@ func extension.GetTransferData {C12,C16}
+//@   reads
+//@   opaque
